@@ -155,7 +155,7 @@ Definition value_good_b (w : world) (it : item) : bool :=
   | TSwitch => (0 <=? b) && (b <=? INT_MAX)
   | TInt => (INT_MIN <=? b) && (b <=? INT_MAX)
   | TSize => (0 <=? b) && (b <=? LONG_MAX)
-  | TDouble => negb (snd (strtod (fmt16 (st_dbl (w_store w) (it_var it)))))
+  | TDouble => let r := strtod (fmt16 (st_dbl (w_store w) (it_var it))) in negb (dbl_error (fst r) (snd r))
   | TKeyvalue =>
       match it_sval it, al_get (w_kvs w) (it_kv it) with
       | Some key, Some t => match kv_find t key with Some (Some x) => x =? b | _ => false end
